@@ -25,6 +25,10 @@ DELEGATED = [
     ("isdigit", ()), ("isidentifier", ()), ("isnumeric", ()), ("isprintable", ()), ("istitle", ()), ("isupper", ()),
     ("isalnum", ()), ("rindex", ("a",)), ("translate", ({97: 98, 44: None},)), ("lstrip", ("a",)), ("expandtabs", (3,)),
     ("maketrans", ("ab", "ba")), ("rsplit", (" ",)), ("replace", ("a", "", 1)), ("count", ("a", 1)), ("find", ("",)),
+    # arguments of other accepted types and forms: a tuple of alternatives, start / end positions (negative too)
+    ("startswith", (("a", ","),)), ("endswith", (("b", "\n"),)), ("endswith", (("a", "b"), 0, 1)), ("startswith", ("b", 1)),
+    ("startswith", ((),)), ("count", ("a", 0, 2)), ("find", ("a", -2)), ("rfind", ("b", 0, -1)), ("index", ("a", 0)),
+    ("center", (5, " ")), ("strip", (None,)), ("translate", (str.maketrans("a", "b"),)), ("format", ((1, 2),)),
 ]
 
 
@@ -38,7 +42,7 @@ class C15(PureCheck):
     rule = ("layouts with >=1 run: all single-run layouts of length 0..2 + sampled 2- and 3-run layouts (quick) / all <=2-run "
             "layouts + sampled 3-run (thorough) over {a, b, space, newline, comma} x {plain, red, bold+on_blue}; split with 8 "
             "separators (present/absent/adjacent/at the ends) and 11 group-free regexes (6 of them able to match zero characters: look-ahead/behind, word boundary, optional, starred, empty), 5 separators with regex metacharacters used both literally and as regexes, splitlines with keepends False/True (also over every line boundary str.splitlines knows: CR, CR LF, VT, FF, FS, GS, RS, NEL, LS, PS), "
-            "ljust/rjust with widths below/at/above the length with and without fill, 58 delegated str method calls (every public str method that __getattr__ hands through at least once); Python's "
+            "ljust/rjust with widths below/at/above the length with and without fill, 71 delegated str method calls (every public str method that __getattr__ hands through at least once); Python's "
             "own answer on the plain text is logged with each event as the reference. distinct_nontrivial = distinct "
             "(layout, method, args) with a formatted or multi-run operand")
     exhaustive = {"quick": False, "thorough": False}
@@ -129,15 +133,15 @@ class C15(PureCheck):
                 ms = list(re.finditer(sep, text))
                 ev["ranges"] = [[a, b] for a, b in zip([0] + [m.end() for m in ms], [m.start() for m in ms] + [len(text)])]
             else:
-                ev["res"] = fmtlib.enc_list_res(lambda: f.split(sep))
+                ev["res"] = fmtlib.enc_list_res(lambda: enc.call(f.split, sep))
                 ev["ref"] = enc_texts(text.split(sep))
                 ev["ranges"] = []
         elif op == "splitlines":
-            ev["res"] = fmtlib.enc_list_res(lambda: f.splitlines(bool(inp["keepends"])))
+            ev["res"] = fmtlib.enc_list_res(lambda: enc.call(f.splitlines, bool(inp["keepends"])))
             ev["ref"] = enc_texts(text.splitlines(bool(inp["keepends"])))
         elif op == "just":
             args = (inp["w"],) + ((chr(inp["fill"]),) if inp["fill"] else ())
-            ev["res"] = fmtlib.enc_res(lambda: getattr(f, inp["side"])(*args))
+            ev["res"] = fmtlib.enc_res(lambda: enc.call(getattr(f, inp["side"]), *args))
             ev["ref"] = enc.enc_text(getattr(text, inp["side"])(*args))
         else:
             m, args = DELEGATED[inp["argi"]]
